@@ -43,6 +43,7 @@ WORKLOADS = {
     "cancel_sor": ("w_cancel.cpp", ()),
     "cancel_raw": ("w_cancel.cpp", ()),
     "cancel_canary": ("w_cancel.cpp", ()),
+    "create": ("w_create.cpp", ()),
     "bulk": ("w_bulk.cpp", ()),
     "find_if": ("w_bulk.cpp", ()),
     "stream": ("w_stream.cpp", ()),
@@ -262,6 +263,9 @@ PROPS = {
             B("w_cancel.cpp", "cancel_raw", quick=7, thorough=120, oracles=["c19.", "c02.", "c04."] + RT_ALL),
             B("w_cancel.cpp", "cancel_sor", quick=5, thorough=60, oracles=["c19.", "c02.", "c04."] + RT_ALL),
             B("w_cancel.cpp", "cancel_canary", quick=4, thorough=60, oracles=["c19."] + RT_ALL),
+            B("w_create.cpp", "create", quick=4, thorough=60, oracles=["c19."] + RT_ALL),
+            B("w_create.cpp", "create", params="race=0", quick=4, thorough=90, oracles=["c19."] + RT_ALL),
+            B("w_create.cpp", "create", cfg="S20r", params="race=0", quick=3, thorough=45, oracles=["c19."] + RT_ALL),
         ],
         level_text=("Seeded exploration of the four-party race {start() body, completion on a completer/opener thread, stop request on a stopper "
                     "thread, destruction of the op state by the receiver inside its completion} over the real detach_on_cancel (gate child "
@@ -272,10 +276,21 @@ PROPS = {
                     "winner; the stop() hook runs at most once, only on a started, not-yet-completed op (or instead of start() in skip-start "
                     "mode); detach_on_cancel delivers done before request_stop() returns and the abandoned child is finished and freed exactly "
                     "once; stop_on_request completes only after a request and leaves no registration behind; alive()==true implies ~canary has "
-                    "not returned until the guard is released, false implies it had begun; no deadlock; shadow memory on the freed op states."),
-        level_note=("Trusted: usim stubs. Not driven yet: create_raw_sender / create_basic_sender (safe and unsafe callbacks) and lambda_op; "
+                    "not returned until the guard is released, false implies it had begun; no deadlock; shadow memory on the freed op states. "
+                    "create_basic_sender (C++20): one operation per run in three flavours (default recursive lock; sends_done=false; user context + "
+                    "user lock factory); the start event hands safe / safe+fallback / opaque-safe / unsafe / opaque-unsafe callbacks and errbacks to "
+                    "1-3 event-source threads that fire them once or twice, before, while or after another one completes the operation, or "
+                    "re-entrantly from inside start(); stop before start, racing, or after start returned; the harness frees the operation state as "
+                    "soon as the receiver is completed. Oracles: events of one operation never overlap on two threads, no event after the receiver "
+                    "was completed or after the body completed the operation, start/stop events at most once, stop event only on a started "
+                    "uncompleted operation whose stop was requested, early cancellation runs no event, the receiver gets exactly what the body "
+                    "completed with first, every fire of a callback with a fallback ends in the body or in the fallback, a mutex inside freed "
+                    "memory is never locked. A second batch (race=0) keeps callbacks and stop requests from being in flight while another one "
+                    "completes the operation, so that the rest of the behaviour is explored without hitting the recorded finding."),
+        level_note=("Trusted: usim stubs. create_raw_sender/lambda_op carry no protocol of their own (exercised as the carrier of create_basic_sender); "
                     "cancellable is additionally exercised through the v2 mutex/event and async_pass workloads (C15, C16)."),
-        real=["detach_on_cancel", "cancellable + try_complete", "stop_on_request", "canary / watcher / guard", "inplace_stop_source"],
+        real=["detach_on_cancel", "cancellable + try_complete", "stop_on_request", "canary / watcher / guard", "inplace_stop_source",
+              "create_basic_sender / create_raw_sender (safe, unsafe, opaque callbacks; fallbacks; lock and context factories)"],
         stub=["harness gates and the nested raw operation", "kit::sim_stop_source", "pthread layer, heap (usim)"],
     ),
     "C17": dict(
